@@ -317,15 +317,15 @@ Definition kill_block (s : st) (b : nat) : st :=
 (* IncSolver::moveBlocks (solve_VPSC.cpp:336-351) *)
 Definition move_blocks (s : st) : st := fold_left update_weighted_position (blist s) s.
 
-(* IncSolver::splitBlocks (solve_VPSC.cpp:352-394) *)
-Definition split_blocks (s : st) : res st :=
+(* IncSolver::splitBlocks (solve_VPSC.cpp:352-394); the second component is IncSolver::splitCnt *)
+Definition split_blocks (s : st) : res (st * nat) :=
   let s0 := move_blocks s in
-  bind (fold_left (fun (acc : res st) (b : nat) =>
-          bind acc (fun s1 =>
+  bind (fold_left (fun (acc : res (st * nat)) (b : nat) =>
+          bind acc (fun p => let '(s1, cnt) := p in
             bind (find_min_lm s1 b) (fun a =>
               let '(mn, s2) := a in
               match mn with
-              | None => Ok s2
+              | None => Ok (s2, cnt)
               | Some v =>
                   let s3 := note s2 (lm_of s2 v) LAGRANGIAN_TOLERANCE in
                   if Qltb (lm_of s3 v) LAGRANGIAN_TOLERANCE then
@@ -335,11 +335,11 @@ Definition split_blocks (s : st) : res st :=
                       let s5 := update_weighted_position (update_weighted_position s4 l) r in
                       let s6 := set_blist s5 (blist s5 ++ [l; r]) in
                       let s7 := kill_block s6 b' in
-                      Ok (set_inactive s7 (inactive s7 ++ [v])))
-                  else Ok s3
+                      Ok (set_inactive s7 (inactive s7 ++ [v]), S cnt))
+                  else Ok (s3, cnt)
               end)))
-          (blist s0) (Ok s0))
-       (fun s8 => Ok (cleanup s8)).
+          (blist s0) (Ok (s0, O)))
+       (fun p => Ok (cleanup (fst p), snd p)).
 
 (* IncSolver::mostViolated (solve_VPSC.cpp:400-449).  scan returns (slackForMostViolated, mostViolated, deleteIndex) *)
 Fixpoint mv_scan (s : st) (l : list nat) (idx : nat) (best : option Q) (mv : option nat) (del : nat)
@@ -422,11 +422,13 @@ Definition final_scan (s : st) : res st :=
   | None => Ok s
   end.
 
-(* IncSolver::satisfy (solve_VPSC.cpp:243-335) *)
+(* IncSolver::satisfy (solve_VPSC.cpp:243-335); also returns splitCnt of this pass *)
+Definition inc_satisfy_cnt (fuel : nat) (s : st) : res (st * nat) :=
+  bind (split_blocks s) (fun p =>
+  bind (satisfy_loop fuel (fst p)) (fun s2 =>
+  bind (final_scan (cleanup s2)) (fun s3 => Ok (s3, snd p)))).
 Definition inc_satisfy (fuel : nat) (s : st) : res st :=
-  bind (split_blocks s) (fun s1 =>
-  bind (satisfy_loop fuel s1) (fun s2 =>
-  final_scan (cleanup s2))).
+  bind (inc_satisfy_cnt fuel s) (fun p => Ok (fst p)).
 
 (* Blocks::cost (blocks.cpp:236-245, block.cpp:626-633) *)
 Definition cost (s : st) : Q :=
@@ -434,21 +436,33 @@ Definition cost (s : st) : Q :=
     fold_left (fun acc' v => let d := position s v - des (var_of s v) in Qred (acc' + wt (var_of s v) * d * d))
               (bvars (block_of s b)) acc) (blist s) 0.
 
-(* IncSolver::solve (solve_VPSC.cpp:212-229) *)
-Fixpoint solve_loop (fuel sfuel : nat) (lastcost : option Q) (c : Q) (s : st) : res st :=
+(* IncSolver::solve (solve_VPSC.cpp:212-236).  fixed = true is the current code (/repo 676ca34):
+     while((fabs(lastcost-cost)>0.0001 || splitCnt>0) && maxtries-->0)        with maxtries = 100;
+   fixed = false is the loop before that commit, while(fabs(lastcost-cost)>0.0001), kept for the refutation
+   theorem C02_solve_optimal_refuted_before_fix. *)
+Fixpoint solve_loop (fixed : bool) (fuel sfuel tries : nat) (lastcost : option Q) (c : Q) (cnt : nat) (s : st) : res st :=
   match fuel with
   | O => OutOfFuel
   | S f =>
-      let continue_ := match lastcost with
-                       | None => true
-                       | Some lc => Qltb COST_EPS (Qabs' (lc - c))
-                       end in
+      let changed := match lastcost with
+                     | None => true
+                     | Some lc => Qltb COST_EPS (Qabs' (lc - c))
+                     end in
       let s0 := match lastcost with Some lc => note s (Qabs' (lc - c)) COST_EPS | None => s end in
-      if continue_ then bind (inc_satisfy sfuel s0) (fun s1 => solve_loop f sfuel (Some c) (cost s1) s1)
-      else Ok s0
+      let again := fun tries' =>
+        bind (inc_satisfy_cnt sfuel s0) (fun p => solve_loop fixed f sfuel tries' (Some c) (cost (fst p)) (snd p) (fst p)) in
+      if fixed then
+        if changed || negb (Nat.eqb cnt O) then
+          match tries with O => Ok s0 | S t => again t end
+        else Ok s0
+      else
+        if changed then again tries else Ok s0
   end.
-Definition inc_solve (fuel : nat) (s : st) : res st :=
-  bind (inc_satisfy fuel s) (fun s1 => solve_loop fuel fuel None (cost s1) s1).
+Definition MAXTRIES : nat := 100.
+Definition inc_solve_gen (fixed : bool) (fuel : nat) (s : st) : res st :=
+  bind (inc_satisfy_cnt fuel s) (fun p => solve_loop fixed fuel fuel MAXTRIES None (cost (fst p)) (snd p) (fst p)).
+Definition inc_solve (fuel : nat) (s : st) : res st := inc_solve_gen true fuel s.
+Definition inc_solve_before_fix (fuel : nat) (s : st) : res st := inc_solve_gen false fuel s.
 
 (* IncSolver::IncSolver / Solver::Solver / Blocks::Blocks (solve_VPSC.cpp:49-82, blocks.cpp:52-59) *)
 Definition init (vs : list var) (cs : list con) : st :=
@@ -476,13 +490,14 @@ Definition set_desired (s : st) (i : nat) (d : Q) : st :=
 
 Inductive op := AddConstraint (c : con) | SetDesired (i : nat) (d : Q) | Solve | Satisfy.
 
-Definition step (fuel : nat) (s : st) (o : op) : res st :=
+Definition step_gen (fixed : bool) (fuel : nat) (s : st) (o : op) : res st :=
   match o with
   | AddConstraint c => Ok (add_constraint s c)
   | SetDesired i d => Ok (set_desired s i d)
-  | Solve => inc_solve fuel s
+  | Solve => inc_solve_gen fixed fuel s
   | Satisfy => inc_satisfy fuel s
   end.
+Definition step (fuel : nat) (s : st) (o : op) : res st := step_gen true fuel s o.
 
 (* observations *)
 Definition final_positions (s : st) : list Q := map (position s) (seq 0 (length (svars s))).
